@@ -16,8 +16,8 @@ package main
 // (unsupported call position, name capture, missing import) it is left alone and the rules see it as it is.
 
 import (
-	_ "embed"
 	"bytes"
+	_ "embed"
 	"fmt"
 	"go/ast"
 	"go/parser"
@@ -25,6 +25,7 @@ import (
 	"go/types"
 	"os"
 	"path/filepath"
+	"regexp"
 	"sort"
 	"strings"
 
@@ -250,11 +251,11 @@ func addImports(src []byte, imps map[string]string) []byte {
 }
 
 type helperInfo struct {
-	decl   *ast.FuncDecl
-	obj    *types.Func
-	file   *ast.File
-	path   string
-	pkg    *packages.Package
+	decl     *ast.FuncDecl
+	obj      *types.Func
+	file     *ast.File
+	path     string
+	pkg      *packages.Package
 	sites    []*siteInfo
 	reason   string // non-empty: not inlinable
 	hasDefer bool   // its own deferred calls must keep running at ITS exit: spliced as a function literal only
@@ -338,7 +339,10 @@ func collectInlineEdits(repo string, overlay map[string][]byte, known map[string
 						h.reason = "recursive"
 					}
 				case *ast.LabeledStmt:
-					h.reason = "has labels"
+					// labels left by an earlier splice (__iN_L) are renamed per site; a label of the author's is not
+					if !strings.HasPrefix(x.Label.Name, "__i") {
+						h.reason = "has labels"
+					}
 				}
 				return true
 			})
@@ -501,6 +505,8 @@ func calleeOf(info *types.Info, c *ast.CallExpr) *types.Func {
 	fn, _ := info.Uses[id].(*types.Func)
 	return fn
 }
+
+var splicedName = regexp.MustCompile(`\b__i([0-9x]+)_`)
 
 // spliceSite builds the replacement of the statement that contains the call.
 func spliceSite(pk *packages.Package, overlay map[string][]byte, h *helperInfo, s *siteInfo, n int) (textEdit, map[string]string, string) {
@@ -808,6 +814,13 @@ func spliceSite(pk *packages.Package, overlay map[string][]byte, h *helperInfo, 
 	}
 	label := prefix + "L"
 	usedLabel := false
+	// temporaries and labels of helpers spliced into this helper in an earlier round become unique per site of this splice
+	renameSpliced := func(t string) string {
+		if !strings.Contains(t, "__i") {
+			return t
+		}
+		return splicedName.ReplaceAllString(t, prefix+"x${1}_")
+	}
 	// the body with its returns rewritten
 	body := h.decl.Body
 	bodySrcStart, bodySrcEnd := off(body.Lbrace)+1, off(body.Rbrace)
@@ -840,7 +853,7 @@ func spliceSite(pk *packages.Package, overlay map[string][]byte, h *helperInfo, 
 			default:
 				var es []string
 				for _, e := range x.Results {
-					es = append(es, text(calleeSrc, e.Pos(), e.End()))
+					es = append(es, renameSpliced(text(calleeSrc, e.Pos(), e.End())))
 				}
 				fmt.Fprintf(&t, "%s = %s; ", strings.Join(rtmps, ", "), strings.Join(es, ", "))
 			}
@@ -864,11 +877,11 @@ func spliceSite(pk *packages.Package, overlay map[string][]byte, h *helperInfo, 
 			// keep the line count: pad the replacement with the newlines the original had
 			rp.t += strings.Repeat("\n", strings.Count(seg, "\n"))
 		}
-		bodyTxt.Write(calleeSrc[at:rp.a])
+		bodyTxt.WriteString(renameSpliced(string(calleeSrc[at:rp.a])))
 		bodyTxt.WriteString(rp.t)
 		at = rp.b
 	}
-	bodyTxt.Write(calleeSrc[at:bodySrcEnd])
+	bodyTxt.WriteString(renameSpliced(string(calleeSrc[at:bodySrcEnd])))
 
 	// the spliced block
 	var blk strings.Builder
